@@ -21,9 +21,11 @@ class Attach:
 
 
 def run_incrate(prop, tier, seed, only, attaches, harnesses, functions_encoded, assumptions, stubs, rule,
-                scalings=(), jobs=8, extra=None, package_args=None):
+                scalings=(), jobs=8, extra=None, package_args=None, shims=None):
     t0 = time.time()
     sc = Scratch(prop.lower())
+    if shims:
+        sc.use_shims(shims)
     for s in scalings:
         sc.scale(*s)
     file_of_mod = {}
@@ -55,10 +57,12 @@ def run_incrate(prop, tier, seed, only, attaches, harnesses, functions_encoded, 
     return rc
 
 
-def replay_incrate(prop, path, attaches, scalings=(), package_args=None):
+def replay_incrate(prop, path, attaches, scalings=(), package_args=None, shims=None):
     """Re-runs a recorded counterexample (concrete playback test) natively against /repo's current tree."""
     info = json.load(open(path))
     sc = Scratch(prop.lower() + "_replay")
+    if shims:
+        sc.use_shims(shims)
     for s in scalings:
         sc.scale(*s)
     target = None
